@@ -25,6 +25,7 @@ import EzdxfVerif.Model.BBox
 import EzdxfVerif.Lemmas.BBoxCubic
 import EzdxfVerif.Lemmas.BBoxSelect
 import EzdxfVerif.Lemmas.BBoxArc
+import EzdxfVerif.Lemmas.BBoxOcs
 import EzdxfVerif.Gen.BBoxKernels
 namespace EzdxfVerif.Props.C15
 open EzdxfVerif.BBox
@@ -1459,6 +1460,177 @@ theorem kernel_bezier (p0 p1 p2 p3 t : Rat) :
 end kernels
 
 
+/-! # Round 2: lattice laws of the box algebra (3D), empty box cases stated -/
+section lattice
+
+/-- absorption 1: `a ∪ (a ∩ b) = a` for all boxes the classes produce (touching or disjoint boxes have an empty
+    `intersection`, the empty box is the unit of `union`) -/
+theorem union_absorb_intersection (a b : Box3) (ha : a.WF) (hb : b.WF) : a.union (a.intersection b) = a := by
+  apply box_ext _ _ (union_wf _ _) ha
+  intro p
+  rw [Bool.eq_iff_iff]
+  constructor
+  · exact union_least a (a.intersection b) a ha (intersection_wf a b) (fun _ h => h)
+      (fun q hq => ((inside_intersection a b ha hb q).mp hq).2.1) p
+  · intro h; exact union_upper a _ p (Or.inl h)
+
+/-- absorption 2: `a ∩ (a ∪ b) = a` needs a box of positive size (`intersection` is empty unless the interiors meet);
+    for the empty box both sides are empty -/
+theorem intersection_absorb_union (a b : Box3) (ha : a.Pos) : a.intersection (a.union b) = a ∧
+    Box3.empty.intersection (Box3.empty.union b) = .empty := by
+  refine ⟨?_, by simp [Box3.intersection, Box3.hasIntersection]⟩
+  cases a with
+  | empty => exact ha.elim
+  | mk alo ahi =>
+    obtain ⟨p1, p2, p3⟩ := ha
+    have hwf : (Box3.mk alo ahi).WF := ⟨le_of_lt p1, le_of_lt p2, le_of_lt p3⟩
+    have hl := union_upper (.mk alo ahi) b alo (Or.inl (corners_inside _ hwf alo (by simp [Box3.iter])))
+    have hh := union_upper (.mk alo ahi) b ahi (Or.inl (corners_inside _ hwf ahi (by simp [Box3.iter])))
+    have huw := union_wf (.mk alo ahi) b
+    cases hu : (Box3.mk alo ahi).union b with
+    | empty => rw [hu] at hl; simp [Box3.inside] at hl
+    | mk ulo uhi =>
+      rw [hu] at hl hh huw
+      rw [inside_mk_iff] at hl hh
+      obtain ⟨l1, l2, l3, l4, l5, l6⟩ := hl
+      obtain ⟨g1, g2, g3, g4, g5, g6⟩ := hh
+      have hi : (Box3.mk alo ahi).hasIntersection (.mk ulo uhi) = true := by
+        rw [has_intersection_mk_iff]
+        exact ⟨by linarith, by linarith, by linarith, by linarith, by linarith, by linarith⟩
+      apply box_ext _ _ (intersection_wf _ _) hwf
+      intro p
+      rw [Bool.eq_iff_iff, inside_intersection _ _ hwf huw]
+      constructor
+      · exact fun h => h.2.1
+      · intro h
+        refine ⟨hi, h, ?_⟩
+        rw [inside_mk_iff] at h ⊢
+        obtain ⟨h1, h2, h3, h4, h5, h6⟩ := h
+        exact ⟨by linarith, by linarith, by linarith, by linarith, by linarith, by linarith⟩
+
+/-- `contains` is a partial order on boxes with data: reflexive exactly on well-formed boxes, transitive, antisymmetric;
+    the empty box is not comparable (`contains_empty`) -/
+theorem contains_partial_order (alo ahi blo bhi clo chi : V3) (a : Box3) :
+    ((Box3.mk alo ahi).contains (.mk alo ahi) = true ↔ (Box3.mk alo ahi).WF) ∧
+    (a.contains (.mk blo bhi) = true → (Box3.mk blo bhi).contains (.mk clo chi) = true → a.contains (.mk clo chi) = true) ∧
+    ((Box3.mk alo ahi).contains (.mk blo bhi) = true → (Box3.mk blo bhi).contains (.mk alo ahi) = true →
+      Box3.mk alo ahi = .mk blo bhi) := by
+  refine ⟨?_, ?_, ?_⟩
+  · simp only [Box3.contains, Bool.and_eq_true, inside_mk_iff, Box3.WF]
+    constructor
+    · rintro ⟨⟨_, h1, _, h2, _, h3⟩, _⟩; exact ⟨h1, h2, h3⟩
+    · rintro ⟨h1, h2, h3⟩; exact ⟨⟨le_rfl, h1, le_rfl, h2, le_rfl, h3⟩, ⟨h1, le_rfl, h2, le_rfl, h3, le_rfl⟩⟩
+  · cases a with
+    | empty => simp [Box3.contains, Box3.inside]
+    | mk lo hi =>
+      simp only [Box3.contains, Bool.and_eq_true, inside_mk_iff]
+      rintro ⟨⟨a1, a2, a3, a4, a5, a6⟩, ⟨b1, b2, b3, b4, b5, b6⟩⟩ ⟨⟨c1, c2, c3, c4, c5, c6⟩, ⟨d1, d2, d3, d4, d5, d6⟩⟩
+      exact ⟨⟨by linarith, by linarith, by linarith, by linarith, by linarith, by linarith⟩,
+        ⟨by linarith, by linarith, by linarith, by linarith, by linarith, by linarith⟩⟩
+  · simp only [Box3.contains, Bool.and_eq_true, inside_mk_iff]
+    rintro ⟨⟨a1, a2, a3, a4, a5, a6⟩, ⟨b1, b2, b3, b4, b5, b6⟩⟩ ⟨⟨c1, c2, c3, c4, c5, c6⟩, ⟨d1, d2, d3, d4, d5, d6⟩⟩
+    obtain ⟨x1, y1, z1⟩ := alo; obtain ⟨x2, y2, z2⟩ := ahi
+    obtain ⟨x3, y3, z3⟩ := blo; obtain ⟨x4, y4, z4⟩ := bhi
+    simp only at *
+    simp only [Box3.mk.injEq, V3.mk.injEq]
+    refine ⟨⟨?_, ?_, ?_⟩, ⟨?_, ?_, ?_⟩⟩ <;> apply le_antisymm <;> linarith
+
+/-- order and join: `a ∪ b = a` iff `a` contains `b` (b with data); with the empty box: `a ∪ empty = a` although
+    `a.contains(empty)` is False -/
+theorem union_eq_left_iff (a : Box3) (blo bhi : V3) (ha : a.WF) (hb : (Box3.mk blo bhi).WF) :
+    (a.union (.mk blo bhi) = a ↔ a.contains (.mk blo bhi) = true) ∧ a.union .empty = a ∧ a.contains .empty = false := by
+  refine ⟨?_, (union_empty a ha).2, rfl⟩
+  constructor
+  · intro h
+    rw [contains_iff_subset a blo bhi hb]
+    intro p hp
+    rw [← h]; exact union_upper a _ p (Or.inr hp)
+  · intro h
+    rw [contains_iff_subset a blo bhi hb] at h
+    apply box_ext _ _ (union_wf _ _) ha
+    intro p
+    rw [Bool.eq_iff_iff]
+    exact ⟨union_least a _ a ha hb (fun _ h => h) h p, fun hp => union_upper a _ p (Or.inl hp)⟩
+
+/-- `union` and `intersection` are monotone in the subset order (point sets), `inside` is monotone along `contains` -/
+theorem box_ops_monotone (a a' b : Box3) (ha : a.WF) (ha' : a'.WF) (hb : b.WF)
+    (hsub : ∀ p, a.inside p = true → a'.inside p = true) :
+    (∀ p, (a.union b).inside p = true → (a'.union b).inside p = true) ∧
+    (a.hasIntersection b = true → a'.hasIntersection b = true) ∧
+    (∀ p, (a.intersection b).inside p = true → (a'.intersection b).inside p = true) := by
+  have hint : a.hasIntersection b = true → a'.hasIntersection b = true := by
+    cases a with
+    | empty => simp [Box3.hasIntersection]
+    | mk alo ahi =>
+      cases b with
+      | empty => simp [Box3.hasIntersection]
+      | mk blo bhi =>
+        have hl := hsub alo (corners_inside _ ha alo (by simp [Box3.iter]))
+        have hh := hsub ahi (corners_inside _ ha ahi (by simp [Box3.iter]))
+        cases a' with
+        | empty => simp [Box3.inside] at hl
+        | mk clo chi =>
+          rw [inside_mk_iff] at hl hh
+          rw [has_intersection_mk_iff, has_intersection_mk_iff]
+          obtain ⟨l1, l2, l3, l4, l5, l6⟩ := hl
+          obtain ⟨g1, g2, g3, g4, g5, g6⟩ := hh
+          rintro ⟨h1, h2, h3, h4, h5, h6⟩
+          exact ⟨by linarith, by linarith, by linarith, by linarith, by linarith, by linarith⟩
+  refine ⟨?_, hint, ?_⟩
+  · exact union_least a b (a'.union b) ha hb (fun p hp => union_upper a' b p (Or.inl (hsub p hp)))
+      (fun p hp => union_upper a' b p (Or.inr hp))
+  · intro p hp
+    rw [inside_intersection a b ha hb] at hp
+    rw [inside_intersection a' b ha' hb]
+    exact ⟨hint hp.1, hsub p hp.2.1, hp.2.2⟩
+
+/-- mixed operands: a `BoundingBox2d` argument of a 3D method is read as the box at z = 0 (`Vec3(other.extmin)`), a
+    `BoundingBox` argument of a 2D method through its x/y coordinates.  Then the 3D tests mean what they mean for the
+    embedded box: `has_overlap` <-> a point of the 2D box, lifted to z = 0, lies in the 3D box; every point of the
+    `intersection` lies in the plane z = 0, in the 2D box and in the 3D box; the 2D tests see the projection -/
+theorem mixed_pair_spec (a : Box3) (b : Box2) (ha : a.WF) (hb : b.WF) :
+    (∀ q : V3, b.to3.inside q = true ↔ q.z = 0 ∧ b.inside q.to2 = true) ∧
+    (a.hasOverlap b.to3 = true ↔ ∃ p : V2, b.inside p = true ∧ a.inside p.to3 = true) ∧
+    (∀ q : V3, (a.intersection b.to3).inside q = true → q.z = 0 ∧ b.inside q.to2 = true ∧ a.inside q = true) ∧
+    (∀ p : V2, a.to2.inside p = true ↔ ∃ z : Rat, a.inside ⟨p.x, p.y, z⟩ = true) := by
+  have h3 : ∀ q : V3, b.to3.inside q = true ↔ q.z = 0 ∧ b.inside q.to2 = true := by
+    intro q
+    cases b with
+    | empty => simp [Box2.to3, Box3.inside, Box2.inside]
+    | mk lo hi =>
+      simp only [Box2.to3, inside_mk_iff, V2.to3, inside2_mk_iff, V3.to2]
+      constructor
+      · rintro ⟨h1, h2, h3, h4, h5, h6⟩; exact ⟨le_antisymm h6 h5, h1, h2, h3, h4⟩
+      · rintro ⟨hz, h1, h2, h3, h4⟩; exact ⟨h1, h2, h3, h4, by rw [hz], by rw [hz]⟩
+  have hwf3 : b.to3.WF := by
+    cases b with
+    | empty => trivial
+    | mk lo hi => exact ⟨hb.1, hb.2, le_rfl⟩
+  refine ⟨h3, ?_, ?_, ?_⟩
+  · rw [has_overlap_iff_common_point a b.to3 ha hwf3]
+    constructor
+    · rintro ⟨q, hq1, hq2⟩
+      obtain ⟨hz, hb2⟩ := (h3 q).mp hq2
+      refine ⟨q.to2, hb2, ?_⟩
+      have : q.to2.to3 = q := by cases q; simp only [V3.to2, V2.to3, V3.mk.injEq, true_and]; exact hz.symm
+      rw [this]; exact hq1
+    · rintro ⟨p, hp1, hp2⟩
+      exact ⟨p.to3, hp2, (h3 p.to3).mpr ⟨rfl, by simpa [V2.to3, V3.to2] using hp1⟩⟩
+  · intro q hq
+    obtain ⟨_, h1, h2⟩ := (inside_intersection a b.to3 ha hwf3 q).mp hq
+    obtain ⟨hz, hb2⟩ := (h3 q).mp h2
+    exact ⟨hz, hb2, h1⟩
+  · intro p
+    cases a with
+    | empty => simp [Box3.to2, Box2.inside, Box3.inside]
+    | mk lo hi =>
+      simp only [Box3.to2, inside2_mk_iff, V3.to2, inside_mk_iff]
+      constructor
+      · rintro ⟨h1, h2, h3', h4⟩; exact ⟨lo.z, h1, h2, h3', h4, le_rfl, ha.2.2⟩
+      · rintro ⟨z, h1, h2, h3', h4, _, _⟩; exact ⟨h1, h2, h3', h4⟩
+
+end lattice
+
 /-! # Session 3: paths, the extremum search, entity trees
 
 Thin statements; the proofs are in `Lemmas/BBoxTree.lean` and `Lemmas/BBoxCubic.lean`. -/
@@ -1831,6 +2003,99 @@ example : exForest.handles.Nodup := by decide
   == .mk ⟨-5, 0, 0⟩ ⟨0, 9, 0⟩
 #guard truthOf (toEnts (fun _ => true) noSb true exForest) 2 == .mk ⟨0, 7, 0⟩ ⟨10, 11, 0⟩
 
+/-! ## round 2: `add_bezier4p` / `add_bezier3p` (how SPLINE, HATCH spline edges, arcs and ellipses enter a path) -/
+
+/-- a cubic Bézier curve whose two inner control points are BOTH collapsed into their end points is its chord
+    (`B(t) = s + (e - s)(3t^2 - 2t^3)`), a quadratic one whose control point is collapsed into the start OR the end point
+    likewise: exactly the cases in which `add_bezier4p` (AND) and `add_bezier3p` (OR) replace the curve by LINE_TO -/
+theorem collapsed_curve_is_chord (s e : V3) (t : Rat) (h0 : 0 ≤ t) (h1 : t ≤ 1) :
+    (bezier4V s s e e t = segPoint s (.lineTo e) (3 * t ^ 2 - 2 * t ^ 3) ∧ 0 ≤ 3 * t ^ 2 - 2 * t ^ 3 ∧ 3 * t ^ 2 - 2 * t ^ 3 ≤ 1) ∧
+    (bezier3V s s e t = segPoint s (.lineTo e) (t ^ 2) ∧ 0 ≤ t ^ 2 ∧ t ^ 2 ≤ 1) ∧
+    (bezier3V s e e t = segPoint s (.lineTo e) (2 * t - t ^ 2) ∧ 0 ≤ 2 * t - t ^ 2 ∧ 2 * t - t ^ 2 ≤ 1) :=
+  ⟨Lemmas.collapsed_cubic_on_chord s e t h0 h1, (Lemmas.collapsed_quadratic_on_chord s e t h0 h1).1,
+    (Lemmas.collapsed_quadratic_on_chord s e t h0 h1).2⟩
+
+/-- one round of `add_bezier4p` / `add_bezier3p` keeps the geometry: every point of the given curve is a point of a segment
+    the round appends, with the pen position tracked (exact comparison of points); so the boxes of the path contain the curve
+    by `path_fast_contains` / `path_precise_contains` -/
+theorem add_bezier_keeps_geometry (near same : V3 → V3 → Bool) (hnear : ∀ a b, near a b = true → a = b)
+    (hsame : ∀ a b, same a b = true → a = b) (pen s c1 c2 e : V3) (t : Rat) (h0 : 0 ≤ t) (h1 : t ≤ 1) :
+    (∃ sc ∈ segsFrom pen (addBezier4Step near same pen s c1 c2 e), ∃ u : Rat, 0 ≤ u ∧ u ≤ 1 ∧
+      bezier4V s c1 c2 e t = segPoint sc.1 sc.2 u) ∧
+    (∃ sc ∈ segsFrom pen (addBezier3Step near same pen s c1 e), ∃ u : Rat, 0 ≤ u ∧ u ≤ 1 ∧
+      bezier3V s c1 e t = segPoint sc.1 sc.2 u) :=
+  ⟨Lemmas.addBezier4Step_geometry near same hnear hsame pen s c1 c2 e t h0 h1,
+    Lemmas.addBezier3Step_geometry near same hnear hsame pen s c1 e t h0 h1⟩
+
+-- one collapsed control point is NOT enough for a cubic (seeded change C15-m8): the curve (0,0) (0,0) (10,10) (20,0) leaves its chord
+#guard bezier4V ⟨0, 0, 0⟩ ⟨0, 0, 0⟩ ⟨10, 10, 0⟩ ⟨20, 0, 0⟩ (2 / 3) == ⟨280 / 27, 40 / 9, 0⟩
+#guard addBezier4Step (· == ·) (· == ·) ⟨0, 0, 0⟩ ⟨0, 0, 0⟩ ⟨0, 0, 0⟩ ⟨10, 10, 0⟩ ⟨20, 0, 0⟩ == [.curve4To ⟨0, 0, 0⟩ ⟨10, 10, 0⟩ ⟨20, 0, 0⟩]
+
+/-! ## round 2: bulge arcs of LWPOLYLINE / 2D POLYLINE and block references in a tilted OCS -/
+
+/-- `bulge_to_arc` without trigonometry (exact rationals, no square root needed): the centre is the midpoint of the chord plus
+    its left normal times `(1 - b^2) / (4 b)`, the squared radius `d^2 (1 + b^2)^2 / (16 b^2)`; both end points and the apex
+    (midpoint moved by the sagitta `b d / 2` to the right) lie on that circle, the apex is equidistant from the end points and
+    on the right of `p1 -> p2` for `b > 0` (counter-clockwise arc), on the left for `b < 0` -/
+theorem bulge_arc_consistent (p1 p2 : V2) (b : Rat) (hb : b ≠ 0) :
+    dist2 (bulgeCenter p1 p2 b) p1 = bulgeRadius2 p1 p2 b ∧ dist2 (bulgeCenter p1 p2 b) p2 = bulgeRadius2 p1 p2 b ∧
+    dist2 (bulgeCenter p1 p2 b) (bulgeApex p1 p2 b) = bulgeRadius2 p1 p2 b ∧
+    dist2 (bulgeApex p1 p2 b) p1 = dist2 (bulgeApex p1 p2 b) p2 ∧
+    (p2.x - p1.x) * ((bulgeApex p1 p2 b).y - p1.y) - (p2.y - p1.y) * ((bulgeApex p1 p2 b).x - p1.x) = -(b / 2) * dist2 p1 p2 :=
+  Lemmas.bulge_consistent p1 p2 b hb
+
+#guard bulgeCenter ⟨0, 0⟩ ⟨2, 0⟩ 1 == ⟨1, 0⟩ && bulgeRadius2 ⟨0, 0⟩ ⟨2, 0⟩ 1 == 1 && bulgeApex ⟨0, 0⟩ ⟨2, 0⟩ 1 == ⟨1, -1⟩
+
+/-- INSERT in an arbitrary (tilted) OCS: the affine map of the tree model built from C12's `insertMatrix` (`ocsInsertAff`)
+    acts as that matrix, and - C12's `insert_matrix_law`, re-proved in Lemmas/BBoxOcs.lean - a transformed INSERT whose scaled
+    axes and insertion point are the images of the old ones has the matrix `m` after the old matrix: the absorption step
+    `t.comp m` of `xform`.  Hence `nested_bbox`, `nested_contains`, `nested_tight` hold verbatim for trees whose block
+    references live in tilted coordinate systems. -/
+theorem ocs_insert_in_tree (old new : Transform.Ocs) (m : Rat3.M44) (i i' : Transform.Ins) (base p : Rat3.V3)
+    (hx : (Transform.insertMatrix new i' ⟨0, 0, 0⟩).ux = Transform.applyDir m (Transform.insertMatrix old i ⟨0, 0, 0⟩).ux)
+    (hy : (Transform.insertMatrix new i' ⟨0, 0, 0⟩).uy = Transform.applyDir m (Transform.insertMatrix old i ⟨0, 0, 0⟩).uy)
+    (hz : (Transform.insertMatrix new i' ⟨0, 0, 0⟩).uz = Transform.applyDir m (Transform.insertMatrix old i ⟨0, 0, 0⟩).uz)
+    (hins : new.toWcs i'.insert = Transform.apply m (old.toWcs i.insert)) :
+    (Lemmas.ocsInsertAff old i base).apply (Lemmas.ofR3 p) = Lemmas.ofR3 (Transform.apply (Transform.insertMatrix old i base) p) ∧
+    (Lemmas.ocsInsertAff new i' base).apply (Lemmas.ofR3 p) =
+      ((Lemmas.affOfM44 m).comp (Lemmas.ocsInsertAff old i base)).apply (Lemmas.ofR3 p) :=
+  ⟨Lemmas.affOfM44_apply _ p, Lemmas.ocs_insert_absorb old new m i i' base hx hy hz hins p⟩
+
+/-- the core-Lean matrix `ocsAff` (used by the driver of stream X6 for INSERTs with a tilted extrusion) is C12's
+    `insertMatrix` for every OCS, insert and base point -/
+theorem ocs_aff_is_insert_matrix (o : Transform.Ocs) (i : Transform.Ins) (base : Rat3.V3) :
+    Lemmas.ocsInsertAff o i base =
+      ocsAff (Lemmas.ofR3 o.ux) (Lemmas.ofR3 o.uy) (Lemmas.ofR3 o.uz) (Lemmas.ofR3 base) ⟨i.sx, i.sy, i.sz⟩
+        (Lemmas.ofR3 i.insert) i.rot.x i.rot.y :=
+  Lemmas.ocsAff_eq o i base
+
+/-! ## round 2: `Primitive.bbox` by kind of primitive -/
+
+/-- primitive_box_is_control_box: for EVERY kind of primitive (mesh, path, LINE, POINT, empty) the fast box is the box of
+    its control points; for all kinds except paths the precise box is the same box; LINE and POINT, which override `bbox`,
+    give in both modes the box of the equivalent one-segment path (so treating them as path leaves in the tree model is
+    sound) -/
+theorem primitive_box_is_control_box (sb : SegBoxes) (r : PrimRep) (fast : Bool) (a b : V3) :
+    r.box sb true = extents3 r.controlPoints ∧
+    ((∀ p, r ≠ .path p) → r.box sb false = r.box sb true) ∧
+    PrimRep.box sb fast (.line a b) = PrimRep.box sb fast (.path ⟨a, [.lineTo b]⟩) ∧
+    PrimRep.box sb fast (.point a) = PrimRep.box sb fast (.path ⟨a, [.lineTo a]⟩) := by
+  refine ⟨?_, ?_, ?_, ?_⟩
+  · cases r with
+    | path p =>
+      by_cases h : p.cmds.isEmpty = true
+      · simp [PrimRep.box, PrimRep.controlPoints, Path.controlVertices, h, extents3]
+      · simp [PrimRep.box, PrimRep.controlPoints, Path.box, h]
+    | _ => simp [PrimRep.box, PrimRep.controlPoints, extents3]
+  · intro h
+    cases r with
+    | path p => exact absurd rfl (h p)
+    | _ => rfl
+  · cases fast <;> simp [PrimRep.box, Path.box, Path.preciseBBox, Path.controlVertices, Path.preciseLoop, Path.preciseStep, Cmd.verts]
+  · cases fast <;>
+      simp [PrimRep.box, Path.box, Path.preciseBBox, Path.controlVertices, Path.preciseLoop, Path.preciseStep, Cmd.verts,
+        extents3, V3.vmin, V3.vmax]
+
 /-! ## `ezdxf.select`: selection shapes against the bounding box of an entity -/
 
 /-- `select.Circle`: `bbox_overlap` selects exactly the boxes that share a point with the disc, `bbox_outside` exactly
@@ -1971,6 +2236,34 @@ theorem arc_path_covers (a0 α φ : ℝ) (n : ℕ) (hn : 0 < n) (hα0 : 0 < α) 
       Lemmas.arcYr (Real.tan (α / 4)) (Real.cos (a0 + k * α)) (Real.sin (a0 + k * α)) t = ρ * Real.sin φ :=
   Lemmas.arc_path_covers a0 α φ n hn hα0 hα h0 h1
 
+/-- round 2: the bookkeeping around the segments.  `arc_count = max(ceil(Δ / 90 deg), segments)` gives at least one segment,
+    segments of at most 90 degrees that add up to the sweep exactly; hence for EVERY sweep `Δ > 0` (more than 360 degrees
+    included) and every requested segment count, every direction of `[a0, a0 + Δ]` is met by one of the segment curves at
+    a distance in [1, 1.0004] ... -/
+theorem arc_whole_covers (a0 Δ φ : ℝ) (segs : ℕ) (hΔ : 0 < Δ) (h0 : a0 ≤ φ) (h1 : φ ≤ a0 + Δ) :
+    let n := max ⌈Δ / Real.pi * 2⌉₊ segs
+    (0 < n ∧ 0 < Δ / n ∧ Δ / n ≤ Real.pi / 2 ∧ (n : ℝ) * (Δ / n) = Δ) ∧
+    ∃ k : ℕ, k < n ∧ ∃ t : ℝ, 0 ≤ t ∧ t ≤ 1 ∧ ∃ ρ : ℝ, 1 ≤ ρ ∧ ρ ≤ 1 + 4 / 10000 ∧
+      Lemmas.arcXr (Real.tan (Δ / n / 4)) (Real.cos (a0 + k * (Δ / n))) (Real.sin (a0 + k * (Δ / n))) t = ρ * Real.cos φ ∧
+      Lemmas.arcYr (Real.tan (Δ / n / 4)) (Real.cos (a0 + k * (Δ / n))) (Real.sin (a0 + k * (Δ / n))) t = ρ * Real.sin φ :=
+  ⟨Lemmas.arc_count_spec Δ segs hΔ, Lemmas.arc_whole_covers a0 Δ φ segs hΔ h0 h1⟩
+
+/-- ... and no segment curve leaves the sector of the whole arc -/
+theorem arc_whole_in_sector (a0 Δ t : ℝ) (segs k : ℕ) (hΔ : 0 < Δ) (t0 : 0 ≤ t) (t1 : t ≤ 1)
+    (hk : k < max ⌈Δ / Real.pi * 2⌉₊ segs) :
+    let n := max ⌈Δ / Real.pi * 2⌉₊ segs
+    ∃ ψ : ℝ, a0 ≤ ψ ∧ ψ ≤ a0 + Δ ∧ ∃ ρ : ℝ, 1 ≤ ρ ∧ ρ ≤ 1 + 4 / 10000 ∧
+      Lemmas.arcXr (Real.tan (Δ / n / 4)) (Real.cos (a0 + k * (Δ / n))) (Real.sin (a0 + k * (Δ / n))) t = ρ * Real.cos ψ ∧
+      Lemmas.arcYr (Real.tan (Δ / n / 4)) (Real.cos (a0 + k * (Δ / n))) (Real.sin (a0 + k * (Δ / n))) t = ρ * Real.sin ψ :=
+  Lemmas.arc_whole_in_sector a0 Δ t segs k hΔ t0 t1 hk
+
+/-- the angle normalisation of `cubic_bezier_from_arc` (degrees): for `-360 <= s < 360`, `span > 0` and `span < 360`
+    when `s < 0` - what `bulge_to_arc` (atan2) and `arc_angle_span_deg` deliver - the normalised interval starts in the same
+    direction (`s` or `s + 360`) and has exactly the sweep `span`, so `arc_whole_covers` applies to the arc as given -/
+theorem from_arc_normalised (s span : ℝ) (hs0 : -360 ≤ s) (hs1 : s < 360) (hsp0 : 0 < span) (hneg : s < 0 → span < 360) :
+    Lemmas.fromArcStart s = (if s < 0 then s + 360 else s) ∧ Lemmas.fromArcEnd s span - Lemmas.fromArcStart s = span :=
+  Lemmas.from_arc_normalised s span hs0 hs1 hsp0 hneg
+
 /-- in every direction `a` in which the true arc point at angle `φ` has a non-negative support value, some point of
     the approximating curve reaches at least as far -/
 theorem arc_support_dominated (θ α φ ax ay : ℝ) (hα0 : 0 < α) (hα : α ≤ Real.pi / 2) (h1 : θ ≤ φ) (h2 : φ ≤ θ + α)
@@ -2066,6 +2359,22 @@ theorem kernel_vertices (lo hi : V3) (lo2 hi2 : V2) :
     (Box3.mk lo hi).rectVertices = some ((rectVertices3 lo.x lo.y lo.z hi.x hi.y hi.z).map (fun p => ⟨p.1, p.2⟩)) ∧
     (Box2.mk lo2 hi2).rectVertices = some ((rectVertices2 lo2.x lo2.y hi2.x hi2.y).map (fun p => ⟨p.1, p.2⟩)) := by
   refine ⟨?_, ?_, ?_⟩ <;> simp [Box3.cubeVertices, Box3.rectVertices, Box2.rectVertices, cubeVertices3, rectVertices3, rectVertices2]
+
+/-- the live registry `_PRIMITIVE_CLASSES`: only LINE and POINT have their own `bbox` (with the pinned bodies the model's
+    `line` / `point` rules), every other registered type uses `Primitive.bbox` (the model's mesh / path / none rule) -/
+theorem kernel_primitive_table :
+    primitiveTable.all (fun r => r.2.2 == "base" || (r.1 == "LINE" && r.2.2 == "line") || (r.1 == "POINT" && r.2.2 == "point")) = true ∧
+    (primitiveTable.filter (fun r => r.2.2 != "base")).map (·.1) = ["LINE", "POINT"] := by
+  decide
+
+/-- the loop bodies of `add_bezier4p` / `add_bezier3p` in the current source: connecting line unless the curve starts at the
+    pen; LINE_TO iff both tests hold (cubic) resp. one of them (quadratic) - the rules of `addBezier4Step`/`addBezier3Step` -/
+theorem kernel_add_bezier (near l1 l2 : Bool) :
+    addBezier4Body near l1 l2 = (if near then [] else ["line_to(start)"]) ++
+      (if l1 && l2 then ["line_to(end)"] else ["curve4_to(end, ctrl1, ctrl2)"]) ∧
+    addBezier3Body near l1 l2 = (if near then [] else ["line_to(start)"]) ++
+      (if l1 || l2 then ["line_to(end)"] else ["curve3_to(end, ctrl)"]) := by
+  cases near <;> cases l1 <;> cases l2 <;> exact ⟨rfl, rfl⟩
 
 end kernels3
 
